@@ -415,6 +415,15 @@ pipeline::~pipeline() {
     while( first_filter ) {
         d1::base_filter* f = first_filter;
         if( input_buffer* b = f->my_input_buffer ) {
+            // Items that are still parked in the buffer of a serial filter (the pipeline was cancelled
+            // before their turn came) are handed to the filter for destruction.
+            for( Token i = 0; i < b->array_size; ++i ) {
+                task_info& item = b->array[i];
+                if( item.is_valid ) {
+                    f->finalize(item.my_object);
+                    item.is_valid = false;
+                }
+            }
             b->~input_buffer();
             deallocate_memory(b);
         }
